@@ -28,7 +28,7 @@ JOBS = {'quick': 4, 'thorough': 16}
 REQUIRED_MONITORS = ('optimiser_boundary', 'residue_guesser', 'protein_guesser', 'manager_routing', 'manager_rejection')
 REQUIRED_CLASSES = ('sizes:start-smaller', 'sizes:start-larger', 'sizes:tie', 'hydrogens:ignored', 'hydrogens:kept',
                     'pairs:on-hydrogen', 'pairs:duplicates', 'guess:mismatching-residue-count', 'routing:partial-dicts',
-                    'routing:preparsed-own-order',
+                    'routing:preparsed-own-order', 'call:repeated-same-list-object',
                     'reject:unknown-species', 'reject:malformed-pair', 'reject:index-out-of-range', 'reject:bad-deformation',
                     'reject:bad-hydrogen-flag')
 RULE = ('(a) molecule pairs (either one larger or tie, random hydrogens in both) x restraint lists (empty, partial, duplicates, '
@@ -134,58 +134,67 @@ def run_boundary(ctx, case):
                         pairs.append((int(rng.integers(0, n1)), h) if n1 < n2 else (h, int(rng.integers(0, n2))))
             ignore_h = bool(rng.random() < 0.6)
             ali = Alignment(start, end)
-            sp0, ep0 = np.array(ali.start.atoms_positions), np.array(ali.end.atoms_positions)
-            shift = ep0.mean(axis=0) - sp0.mean(axis=0)
-            del received[:]
-            w = {'n_start': n1, 'n_end': n2, 'pairs': pairs, 'ignore_hydrogens': ignore_h, 'hydrogens_start': sorted(hs), 'hydrogens_end': sorted(he)}
-            try:
-                ali.align_molecules(restrictions=list(pairs), ignore_hydrogens=ignore_h)
-            except Exception as exc:  # noqa
-                ctx.violation(f'alignment-raises:{type(exc).__name__}', str(exc)[:200], witness=w)
-                continue
-            ctx.count('evaluations')
-            if n2 == 1:
-                if received:
-                    ctx.violation('optimiser-called-for-one-atom-end', 'minimize_molecules was called although the end molecule has one atom', witness=w)
-                continue
-            if len(received) != 1:
-                ctx.violation('optimiser-calls', f'{len(received)} calls of the optimiser for one alignment', witness=w)
-                continue
-            ctx.monitor('optimiser_boundary')
-            m1, m2, restr, _ = received[0]
-            start_mobile = n1 < n2
-            spos = sp0 + shift
-            fixed_pos, mobile_pos = (ep0, spos) if start_mobile else (spos, ep0)
-            fixed_h = he if start_mobile else hs
-            fid, mid = identify(m1, fixed_pos), identify(m2, mobile_pos)
-            if None in fid or None in mid:
-                ctx.violation('optimiser-received-unknown-coordinates', 'a row handed to the optimiser is not the coordinate of any atom of the expected molecule', witness=w)
-                continue
-            if mid != list(range(len(mobile_pos))):
-                ctx.violation('mobile-atoms-reordered-or-filtered', f'mobile rows designate atoms {mid[:10]}', witness=w)
-                continue
-            want_fixed_rows = [k for k in range(len(fixed_pos)) if not (ignore_h and k in fixed_h)]
-            if fid != want_fixed_rows:
-                ctx.violation('fixed-atoms-filtered-wrongly', f'fixed rows designate atoms {fid[:12]}, expected {want_fixed_rows[:12]}', witness=w)
-                continue
-            # translate received pairs back to (start atom, end atom)
-            got = []
-            ok = True
-            for a, b in restr:
-                if not (0 <= a < len(fid) and 0 <= b < len(mid)):
-                    ctx.violation('restraint-index-out-of-range', f'pair {(a, b)} with {len(fid)} fixed rows and {len(mid)} mobile rows', witness=w)
-                    ok = False
-                    break
-                fa, mb = fid[a], mid[b]
-                got.append((mb, fa) if start_mobile else (fa, mb))
-            if not ok:
-                continue
-            want = [(i, j) for (i, j) in pairs if not (ignore_h and ((j in fixed_h) if start_mobile else (i in fixed_h)))]
-            if got != want:
-                role = 'start-smaller' if start_mobile else 'start-larger-or-tie'
-                hyd = 'hydrogens-filtered' if ignore_h and fixed_h else 'no-filtering'
-                ctx.violation(f'restraints-designate-other-atoms:{role}:{hyd}',
-                              f'user pairs (start,end) {pairs[:8]} reached the optimiser as {got[:8]}, expected {want[:8]}', witness=w)
+            # the alignment is run one to three times on the same object; half of the time the caller hands over the very
+            # same list object each time (as when restraints are prepared once and several alignments are tried)
+            nrep = int(rng.integers(1, 4))
+            same_list = bool(rng.random() < 0.5)
+            pairs_obj = list(pairs)
+            for rep in range(nrep):
+                if rep:
+                    ctx.hit('call:repeated-same-list-object' if same_list else 'call:repeated-fresh-list')
+                sp0, ep0 = np.array(ali.start.atoms_positions), np.array(ali.end.atoms_positions)
+                shift = ep0.mean(axis=0) - sp0.mean(axis=0)
+                del received[:]
+                w = {'n_start': n1, 'n_end': n2, 'pairs': pairs, 'ignore_hydrogens': ignore_h, 'hydrogens_start': sorted(hs), 'hydrogens_end': sorted(he),
+                     'call_number': rep + 1, 'same_list_object_each_call': same_list}
+                try:
+                    ali.align_molecules(restrictions=pairs_obj if same_list else list(pairs), ignore_hydrogens=ignore_h)
+                except Exception as exc:  # noqa
+                    ctx.violation(f'alignment-raises:{type(exc).__name__}', str(exc)[:200], witness=w)
+                    continue
+                ctx.count('evaluations')
+                if n2 == 1:
+                    if received:
+                        ctx.violation('optimiser-called-for-one-atom-end', 'minimize_molecules was called although the end molecule has one atom', witness=w)
+                    continue
+                if len(received) != 1:
+                    ctx.violation('optimiser-calls', f'{len(received)} calls of the optimiser for one alignment', witness=w)
+                    continue
+                ctx.monitor('optimiser_boundary')
+                m1, m2, restr, _ = received[0]
+                start_mobile = n1 < n2
+                spos = sp0 + shift
+                fixed_pos, mobile_pos = (ep0, spos) if start_mobile else (spos, ep0)
+                fixed_h = he if start_mobile else hs
+                fid, mid = identify(m1, fixed_pos), identify(m2, mobile_pos)
+                if None in fid or None in mid:
+                    ctx.violation('optimiser-received-unknown-coordinates', 'a row handed to the optimiser is not the coordinate of any atom of the expected molecule', witness=w)
+                    continue
+                if mid != list(range(len(mobile_pos))):
+                    ctx.violation('mobile-atoms-reordered-or-filtered', f'mobile rows designate atoms {mid[:10]}', witness=w)
+                    continue
+                want_fixed_rows = [k for k in range(len(fixed_pos)) if not (ignore_h and k in fixed_h)]
+                if fid != want_fixed_rows:
+                    ctx.violation('fixed-atoms-filtered-wrongly', f'fixed rows designate atoms {fid[:12]}, expected {want_fixed_rows[:12]}', witness=w)
+                    continue
+                # translate received pairs back to (start atom, end atom)
+                got = []
+                ok = True
+                for a, b in restr:
+                    if not (0 <= a < len(fid) and 0 <= b < len(mid)):
+                        ctx.violation('restraint-index-out-of-range', f'pair {(a, b)} with {len(fid)} fixed rows and {len(mid)} mobile rows', witness=w)
+                        ok = False
+                        break
+                    fa, mb = fid[a], mid[b]
+                    got.append((mb, fa) if start_mobile else (fa, mb))
+                if not ok:
+                    continue
+                want = [(i, j) for (i, j) in pairs if not (ignore_h and ((j in fixed_h) if start_mobile else (i in fixed_h)))]
+                if got != want:
+                    role = 'start-smaller' if start_mobile else 'start-larger-or-tie'
+                    hyd = 'hydrogens-filtered' if ignore_h and fixed_h else 'no-filtering'
+                    ctx.violation(f'restraints-designate-other-atoms:{role}:{hyd}',
+                                  f'user pairs (start,end) {pairs[:8]} reached the optimiser as {got[:8]}, expected {want[:8]}', witness=w)
             ctx.hit('sizes:' + ('start-smaller' if n1 < n2 else 'start-larger' if n1 > n2 else 'tie'))
             ctx.hit('hydrogens:' + ('ignored' if ignore_h else 'kept'))
             if style == 3:
@@ -417,6 +426,20 @@ def run_manager(ctx, case):
                             ctx.violation('deformation-types-routed-wrongly', f'{name} received {d}, given {want_d}', witness=wit)
                         if g is not want_g and g != want_g:
                             ctx.violation('hydrogen-flag-routed-wrongly', f'{name} received {g}, given {want_g}', witness=wit)
+                    # the same option objects handed over a second time reach the alignments exactly as the first time
+                    if rng.random() < 0.5:
+                        first_log = [(e[0], None if not e[1] else [tuple(p) for p in e[1]], e[2], e[3]) for e in log]
+                        del log[:]
+                        try:
+                            man.align_molecules(**kwargs)
+                        except Exception as exc:  # noqa
+                            ctx.violation(f'valid-options-rejected-on-second-use:{type(exc).__name__}', str(exc)[:200], witness=wit)
+                            continue
+                        second_log = [(e[0], None if not e[1] else [tuple(p) for p in e[1]], e[2], e[3]) for e in log]
+                        ctx.hit('routing:same-option-objects-used-twice')
+                        if second_log != first_log:
+                            ctx.violation('options-reach-alignments-differently-on-second-use',
+                                          f'first {first_log[:3]} second {second_log[:3]}', witness=wit)
                     if any(len(dct) not in (0, len(complete)) for dct in (restr, defo, ign)):
                         ctx.hit('routing:partial-dicts')
                     ctx.nontrivial(('routing', len(complete), tuple(sorted(restr)), tuple(sorted(defo)), tuple(sorted(ign))))
